@@ -10,7 +10,7 @@
    [no_fuel]: the model's loop fuel was never exhausted.  All statements are
    for ALL scripts (chunkings, empty reads, rows together with EOF, failures)
    and ALL demand sequences with every demand >= 1. *)
-From Coq Require Import List ZArith Bool.
+From Coq Require Import String List ZArith Bool.
 Import ListNotations.
 From Coq Require Import Lia.
 Require Import BS.C17.Model BS.C17.Lemmas BS.C17.ProofsOps BS.C17.ProofsFlatmap
@@ -31,10 +31,14 @@ Qed.
 (* the integer literals of headReader.Read, taskBufferReader.Read and the two multiReader.Read *)
 Theorem C17_gen_head_literals : c17_head_literals = [0; 0; 0]%Z.
 Proof. reflexivity. Qed.
+(* headReader.Read as transcribed by [head_read]: the read is cut to the h.n rows still wanted *)
+Theorem C17_gen_head_read_src : c17_head_read_src =
+  "{ if h.n <= 0 { return 0, sliceio.EOF } if h.n < out.Len() { out = out.Slice(0, h.n) } n, err = h.reader.Read(ctx, out) h.n -= n return }"%string.
+Proof. reflexivity. Qed.
 Theorem C17_gen_taskbuf_literals : c17_taskbuf_literals = [0; 0; 0; 0]%Z.
 Proof. reflexivity. Qed.
 Theorem C17_gen_multi_literals :
-  c17_multi_sliceio_literals = [0; 0; 0; 0; 0; 1; 0; 0]%Z /\ c17_multi_exec_literals = [0; 0; 0; 1; 0; 0]%Z.
+  c17_multi_sliceio_literals = [0; 0; 0; 0; 0; 1; 0; 0; 0]%Z /\ c17_multi_exec_literals = [0; 0; 0; 1; 0; 0; 0]%Z.
 Proof. split; reflexivity. Qed.
 
 (* ---- mapReader (slice.go:600) ---- *)
@@ -148,11 +152,18 @@ Theorem C17_head_chunking_irrelevant : forall n s1 s2 ds1 ds2,
   final_of (run head_read (mkHead s2 n) ds2) = SEof ->
   outs_of (run head_read (mkHead s1 n) ds1) = outs_of (run head_read (mkHead s2 n) ds2).
 Proof. exact head_chunking_irrelevant. Qed.
-(* finding: headReader writes destination rows past the count it reports *)
-Theorem C17_head_writes_only_prefix_refuted :
-  exists st d, length (fst (fst (head_read st d))) < length (head_written st d).
-Proof. exact head_writes_only_prefix_refuted. Qed.
-Print Assumptions C17_head_writes_only_prefix_refuted.
+(* "writes only those rows": what lands in the destination is what is reported *)
+Theorem C17_head_writes_only_prefix : forall st d,
+  head_written st d = fst (fst (head_read st d)).
+Proof. exact head_writes_only_prefix. Qed.
+Theorem C17_head_demand_bounded : forall st d,
+  (0 < h_n st)%Z -> 1 <= d -> (Z.of_nat (head_demand st d) <= h_n st)%Z /\ head_demand st d <= d.
+Proof. exact head_demand_bounded. Qed.
+(* witness of the defect repaired by commit b23d5f2 (old reader, kept as [head_read_overwriting]) *)
+Theorem C17_head_read_overwriting_wrote_past_count :
+  exists st d, length (fst (fst (head_read_overwriting st d))) < length (head_written_overwriting st d).
+Proof. exact head_read_overwriting_wrote_past_count. Qed.
+Print Assumptions C17_head_writes_only_prefix.
 
 (* ---- constReader (slice.go:246) over the rows constShard assigns to the shard ---- *)
 Theorem C17_const_delivers : forall data nshard shard ds,
@@ -177,16 +188,8 @@ Theorem C17_const_total : forall data nshard shard ds,
 Proof. exact const_total. Qed.
 
 (* ---- sliceio.multiReader (sliceio/reader.go:85) and exec.multiReader (exec/local.go:248) ---- *)
-(* finding: rows returned together with EOF by a sub-reader are dropped *)
-Theorem C17_multi_delivers_refuted :
-  exists q ds, demands_ok ds /\
-    final_of (run multi_read (mkMulti q SOk) ds) = SEof /\
-    outs_of (run multi_read (mkMulti q SOk) ds) <> sem_multi q.
-Proof. exact multi_delivers_refuted. Qed.
-Print Assumptions C17_multi_delivers_refuted.
-
-Theorem C17_multi_delivers_partial : forall q ds,
-  Forall clean q -> demands_ok ds ->
+Theorem C17_multi_delivers : forall q ds,
+  demands_ok ds ->
   let r := run multi_read (mkMulti q SOk) ds in
   calls_bounded r ds /\
   prefix (outs_of r) (sem_multi q) /\
@@ -194,22 +197,30 @@ Theorem C17_multi_delivers_partial : forall q ds,
   (qfails q = true -> final_of r <> SEof) /\
   (qfails q = false -> forall e, final_of r <> SErr e) /\
   no_fuel r.
-Proof. exact multi_delivers_partial. Qed.
-
-Theorem C17_multi_progress_partial : forall q ds,
-  Forall clean q -> demands_ok ds -> qmeas q < length ds ->
+Proof. exact multi_delivers. Qed.
+Print Assumptions C17_multi_delivers.
+Theorem C17_multi_progress : forall q ds,
+  demands_ok ds -> qmeas q < length ds ->
   final_of (run multi_read (mkMulti q SOk) ds) <> SOk.
-Proof. exact multi_progress_partial. Qed.
-Theorem C17_multi_chunking_irrelevant_partial : forall q1 q2 ds1 ds2,
-  Forall clean q1 -> Forall clean q2 -> sem_multi q1 = sem_multi q2 ->
+Proof. exact multi_progress. Qed.
+Theorem C17_multi_total : forall q ds,
+  demands_ok ds -> qmeas q < length ds -> qfails q = false ->
+  outs_of (run multi_read (mkMulti q SOk) ds) = sem_multi q /\
+  final_of (run multi_read (mkMulti q SOk) ds) = SEof.
+Proof. exact multi_total. Qed.
+Theorem C17_multi_chunking_irrelevant : forall q1 q2 ds1 ds2,
+  sem_multi q1 = sem_multi q2 ->
   demands_ok ds1 -> demands_ok ds2 ->
   final_of (run multi_read (mkMulti q1 SOk) ds1) = SEof ->
   final_of (run multi_read (mkMulti q2 SOk) ds2) = SEof ->
   outs_of (run multi_read (mkMulti q1 SOk) ds1) = outs_of (run multi_read (mkMulti q2 SOk) ds2).
-Proof. exact multi_chunking_irrelevant_partial. Qed.
-Theorem C17_multi_calls_bounded : forall q ds,
-  calls_bounded (run multi_read (mkMulti q SOk) ds) ds.
-Proof. exact multi_calls_bounded. Qed.
+Proof. exact multi_chunking_irrelevant. Qed.
+(* witness of the defect repaired by commit d00fa90 (old readers, kept as [multi_read_dropping]) *)
+Theorem C17_multi_read_dropping_lost_rows :
+  exists q ds, demands_ok ds /\
+    final_of (run multi_read_dropping (mkMulti q SOk) ds) = SEof /\
+    outs_of (run multi_read_dropping (mkMulti q SOk) ds) <> sem_multi q.
+Proof. exact multi_read_dropping_lost_rows. Qed.
 
 (* ---- sliceio.frameReader (sliceio/reader.go:134) ---- *)
 Theorem C17_frame_delivers : forall rows ds,
@@ -411,6 +422,7 @@ Definition C17_all :=
   (C17_gen_chunk,
    C17_gen_const_shard,
    C17_gen_head_literals,
+   C17_gen_head_read_src,
    C17_gen_taskbuf_literals,
    C17_gen_multi_literals,
    C17_map_delivers,
@@ -428,15 +440,17 @@ Definition C17_all :=
    C17_head_delivers,
    C17_head_progress,
    C17_head_chunking_irrelevant,
-   C17_head_writes_only_prefix_refuted,
+   C17_head_writes_only_prefix,
+   C17_head_demand_bounded,
+   C17_head_read_overwriting_wrote_past_count,
    C17_const_delivers,
    C17_const_progress,
    C17_const_total,
-   C17_multi_delivers_refuted,
-   C17_multi_delivers_partial,
-   C17_multi_progress_partial,
-   C17_multi_chunking_irrelevant_partial,
-   C17_multi_calls_bounded,
+   C17_multi_delivers,
+   C17_multi_progress,
+   C17_multi_total,
+   C17_multi_chunking_irrelevant,
+   C17_multi_read_dropping_lost_rows,
    C17_frame_delivers,
    C17_frame_progress,
    C17_frame_total,
